@@ -167,6 +167,11 @@ V("c11h-identity-of-moments-as-cache-key", "C11", {"rule": "C11h", "contains": "
   (GSTATE, "    def _is_displaced(self) -> bool:", "    def _cached_calculation_is_current(self, cached_moments) -> bool:\n        return all(cached is current for cached, current in zip(cached_moments, (self._m, self._G, self._C)))\n\n    def _is_displaced(self) -> bool:"))
 V("c11h-type-identity-is-not-a-cache-key", "C11", "silent",
   (GSTATE, "    def _is_displaced(self) -> bool:", "    def _same_kind(self, other) -> bool:\n        return type(self) is type(other) and self._m is not None\n\n    def _is_displaced(self) -> bool:"))
+TFCONN = "piquasso/_simulators/connectors/tensorflow_/connector.py"
+V("c09e-tf-polar-unitary-same-side-for-both", "C09", {"rule": "C09e", "contains": "TensorflowConnector.polar|side=left"},
+  (TFCONN, "        if side == \"right\":\n            P = self._tf.linalg.sqrtm(adjoint @ matrix)\n            U = matrix @ self._tf.linalg.inv(P)\n        elif side == \"left\":\n            P = self._tf.linalg.sqrtm(matrix @ adjoint)\n            U = self._tf.linalg.inv(P) @ matrix\n", "        gram = adjoint @ matrix if side == \"right\" else matrix @ adjoint\n\n        P = self._tf.linalg.sqrtm(gram)\n        U = matrix @ self._tf.linalg.inv(P)\n"))
+V("c09e-tf-polar-conditional-expressions", "C09", "silent",
+  (TFCONN, "        if side == \"right\":\n            P = self._tf.linalg.sqrtm(adjoint @ matrix)\n            U = matrix @ self._tf.linalg.inv(P)\n        elif side == \"left\":\n            P = self._tf.linalg.sqrtm(matrix @ adjoint)\n            U = self._tf.linalg.inv(P) @ matrix\n", "        gram = adjoint @ matrix if side == \"right\" else matrix @ adjoint\n\n        P = self._tf.linalg.sqrtm(gram)\n        U = matrix @ self._tf.linalg.inv(P) if side == \"right\" else self._tf.linalg.inv(P) @ matrix\n"))
 # ------------------------------------------------------------------------------------------- C20
 V("c20-sub-add", "C20", {"rule": "C20c", "contains": "Sub"}, (EXPR, "ast.Sub: op.sub", "ast.Sub: op.add"))
 V("c20-lt-le", "C20", {"rule": "C20c", "contains": "Lt"}, (EXPR, "ast.Lt: op.lt", "ast.Lt: op.le"))
